@@ -24,7 +24,7 @@ from pycdlib import utils
 
 # For mypy annotations
 if False:  # pylint: disable=using-constant-test
-    from typing import List, Union  # NOQA pylint: disable=unused-import
+    from typing import List, Optional, Union  # NOQA pylint: disable=unused-import
     # NOTE: these imports have to be here to avoid circular deps
     from pycdlib import dr  # NOQA pylint: disable=unused-import
     from pycdlib import headervd  # NOQA pylint: disable=unused-import
@@ -742,8 +742,8 @@ class EltoritoBootCatalog:
         self._initialized = True
 
     def add_section(self, ino, sector_count, load_seg, media_name, system_type,
-                    efi, bootable):
-        # type: (inode.Inode, int, int, str, int, bool, bool) -> None
+                    efi, bootable, platform_id=None):
+        # type: (inode.Inode, int, int, str, int, bool, bool, Optional[int]) -> None
         """
         Add an section header and entry to this Boot Catalog.
 
@@ -755,6 +755,9 @@ class EltoritoBootCatalog:
          system_type - The type of partition this entry should be.
          efi - Whether this section is an EFI section.
          bootable - Whether this entry should be bootable.
+         platform_id - The platform id to set in the section header; if None,
+                       the platform id of the validation entry is used.  An
+                       EFI section always gets platform id 0xef.
         Returns:
          Nothing.
         """
@@ -770,10 +773,14 @@ class EltoritoBootCatalog:
         if len(self.sections) == 31:
             raise pycdlibexception.PyCdlibInvalidInput('Too many El Torito sections')
 
-        sec = EltoritoSectionHeader()
-        platform_id = self.validation_entry.platform_id
+        if platform_id is None:
+            platform_id = self.validation_entry.platform_id
         if efi:
             platform_id = 0xef
+        if platform_id not in (0, 1, 2, 0xef):
+            raise pycdlibexception.PyCdlibInvalidInput('Invalid platform ID (must be one of 0, 1, 2, or 0xef)')
+
+        sec = EltoritoSectionHeader()
         sec.new(b'\x00' * 28, platform_id)
 
         secentry = EltoritoEntry()
